@@ -23,6 +23,7 @@ def main():
         sys.exit(2)
     tier = a.tier if a.tier in ("quick", "thorough") else "quick"
     seed = a.seed if a.seed is not None else int(os.environ.get("VERIF_SEED") or 0)
+    os.environ["VERIF_TIER"] = tier
     ctx = Ctx(pid, tier, seed, a.replay)
     t0 = time.time()
     try:
